@@ -214,6 +214,11 @@ Definition p_commit (c : pcfg) (s : pstate) (index : nat) : option (pstate * boo
 
 Definition p_finish (s : pstate) : pstate := set_buf s [].
 
+(** Suggestion::is_empty *)
+Definition out_empty (o : output) : bool :=
+  match o with OSingle [] _ => true | OFull _ [] _ _ => true | _ => false end.
+
+(** When what is left produces an empty suggestion (a lone escape character with the list off), the word is gone. *)
 Definition p_backspace (c : pcfg) (s : pstate) (ctrl : bool) : pstate * output :=
   match p_buf s with
   | [] => (s, OSingle [] false)
@@ -221,7 +226,8 @@ Definition p_backspace (c : pcfg) (s : pstate) (ctrl : bool) : pstate * output :
          else let b := removelast (p_buf s) in
               match b with
               | [] => (set_buf s [], OSingle [] false)
-              | _ => create_suggestion c (set_buf s b)
+              | _ => let r := create_suggestion c (set_buf s b) in
+                     if out_empty (snd r) then (set_buf (fst r) [], snd r) else r
               end
   end.
 
